@@ -1,4 +1,5 @@
 import CCVerif.Lemmas.EvalGround
+import CCVerif.Lemmas.EvalExamples
 /-!
 # C02 — type soundness of checker + evaluator
 
@@ -12,7 +13,9 @@ import CCVerif.Lemmas.EvalGround
   error `typedOverflow`), a value has the reported type, a truth value is returned exactly for
   LOGIC, an error is a documented one (parametric in the typing judgement of C03);
   `progress_preservation_partial` proves it for the ground integer / logic fragment, no guard
-  needed; `guarded_no_error_partial` adds that under the explicit guard `Safe32` (every arithmetic
+  needed; `progress_preservation_partial1/2/3` prove it for the typed fragments of
+  `Lemmas/EvalFrag.lean` (ground set constructs; + globals under `GlobalsOK`; + `∀ ∃ D{x∈S|P}` over one
+  plain variable), `values_canonical_partial3` adds that returned values are canonical; `guarded_no_error_partial` adds that under the explicit guard `Safe32` (every arithmetic
   subterm's exact value fits `int32_t`) no error is raised at all; `never_stuck_partial` lists the
   possible outcomes;
 * `…_fixed`: the closed accepted inputs on which the code pinned at the start was `stuck` or
@@ -283,6 +286,86 @@ example : Safe32 {} sample := by
       simp [dInt, arithOp] at hx
       rw [← hx]; decide
 example : (evaluate 10 {} sample).1 = .ok (.e 20) := by decide
+
+/-! ## stages 1-3: set-valued expressions, globals, binders over one plain variable
+
+The typed fragments of `Lemmas/EvalFrag.lean` (same as in C01): the judgement `Frag env G lvl [] e τ`
+plays the role of `Typed`; for `lvl ≥ 2` the interpretation must give every typed global a
+canonical value of its type (`GlobalsOK`, the explicit form of `CheckCompatible` + canonical sets). -/
+
+def Typed1 (env : Env) (e : Ast) (τ : ExprTy) : Prop := Frag env [] 1 [] e τ
+def Typed2 (env : Env) (e : Ast) (τ : ExprTy) : Prop := ∃ G, GlobalsOK env G ∧ Frag env G 2 [] e τ
+def Typed3 (env : Env) (e : Ast) (τ : ExprTy) : Prop := ∃ G, GlobalsOK env G ∧ Frag env G 3 [] e τ
+
+theorem typed1_sub_typed2 {env : Env} {e : Ast} {τ : ExprTy} (h : Typed1 env e τ) : Typed2 env e τ :=
+  ⟨[], (by intro g σ hg; simp [lookup] at hg), Frag.mono (by decide) h⟩
+theorem typed2_sub_typed3 {env : Env} {e : Ast} {τ : ExprTy} (h : Typed2 env e τ) : Typed3 env e τ :=
+  let ⟨G, hG, hf⟩ := h; ⟨G, hG, hf.mono (by decide)⟩
+
+/-- **progress_preservation_partial3**: closed expressions of the stage-3 fragment (every ground
+set construct, globals under a canonical typed interpretation, `∀ ∃ D{·∈·|·}` over one plain variable):
+the evaluator is never `stuck`, a value has the type of the expression, a truth value is returned
+exactly for LOGIC, an error is a documented one (`typedOverflow`, `invalidDebool`, `booleanLimit`,
+`iterationsLimit`, `globalMissingValue`), `unknownError` is impossible.
+Missing from the full statement: tuple patterns, enumerated declarations, calls, `R{}`, `I{}`,
+filters, `Z`; `ℬ` of operands beyond the reference bound (shared fragment with C01). -/
+theorem progress_preservation_partial3 : progress_preservation_statement Typed3 := by
+  intro env e τ ⟨G, hG, hf⟩ fuel
+  rcases evaluate_frag hG hf fuel with hg | ho | ⟨eid, pos, he, hd⟩
+  · cases τ with
+    | ty ty =>
+      obtain ⟨v, hr, hw, _, _⟩ := hg
+      rw [hr]
+      exact ⟨ty, rfl, (hasTy_iff v ty).mp hw.1⟩
+    | logic =>
+      obtain ⟨b, hr, _⟩ := hg
+      rw [hr]; rfl
+  · rw [ho]; trivial
+  · rw [he]; exact hd
+
+theorem progress_preservation_partial2 : progress_preservation_statement Typed2 :=
+  fun env e τ h => progress_preservation_partial3 env e τ (typed2_sub_typed3 h)
+
+theorem progress_preservation_partial1 : progress_preservation_statement Typed1 :=
+  fun env e τ h => progress_preservation_partial2 env e τ (typed1_sub_typed2 h)
+
+/-- **values_canonical_partial3**: on the fragment every returned value is moreover canonical (sets
+strictly increasing in `Compare`, recursively) and its type is `R0`-free - the hypothesis under
+which `Compare` is a total order and the set operations mean what they should -/
+theorem values_canonical_partial3 (env : Env) (e : Ast) (τ : ExprTy) (h : Typed3 env e τ) (fuel : Nat) (v : Val)
+    (hv : (evaluate fuel env e).1 = .ok v) : canon v = true ∧ ∃ ty, τ = .ty ty ∧ noAny ty = true := by
+  obtain ⟨G, hG, hf⟩ := h
+  rcases evaluate_frag hG hf fuel with hg | ho | ⟨eid, pos, he, _⟩
+  · cases τ with
+    | ty ty =>
+      obtain ⟨v', hr, hw, hn, _⟩ := hg
+      rw [hr] at hv; injection hv with hv; subst hv
+      exact ⟨hw.2, ty, rfl, hn⟩
+    | logic =>
+      obtain ⟨b, hr, _⟩ := hg
+      rw [hr] at hv; cases hv
+  · rw [ho] at hv; cases hv
+  · rw [he] at hv; cases hv
+
+/-- **never_stuck_partial3**: the possible outcomes on the stage-3 fragment -/
+theorem never_stuck_partial3 (env : Env) (e : Ast) (τ : ExprTy) (h : Typed3 env e τ) (fuel : Nat) :
+    (∃ v, (evaluate fuel env e).1 = .ok v) ∨ (∃ b, (evaluate fuel env e).1 = .okBool b) ∨
+    (evaluate fuel env e).1 = .outOfFuel ∨ (∃ eid pos, (evaluate fuel env e).1 = .err eid pos ∧ Documented eid) := by
+  obtain ⟨G, hG, hf⟩ := h
+  rcases evaluate_frag hG hf fuel with hg | ho | ⟨eid, pos, he, hd⟩
+  · cases τ with
+    | ty ty => obtain ⟨v, hr, _⟩ := hg; exact Or.inl ⟨v, hr⟩
+    | logic => obtain ⟨b, hr, _⟩ := hg; exact Or.inr (Or.inl ⟨b, hr⟩)
+  · exact Or.inr (Or.inr (Or.inl ho))
+  · exact Or.inr (Or.inr (Or.inr ⟨eid, pos, he, hd⟩))
+
+/-! non-vacuity (witnesses in `Lemmas/EvalExamples.lean`, the expressions of C01's examples) and one
+value-typed instance: `D{x∈X1 | ∃y∈X1 (x,y)∈D1}` has type `ℬ(X1)` and evaluates to `{1,2}` -/
+example : Typed1 {} Examples.e1 .logic := Examples.e1_frag {}
+example : Typed2 Examples.envS Examples.e2 .logic := ⟨_, Examples.globalsOK_S, Examples.e2_frag⟩
+example : Typed3 Examples.envS Examples.e3 .logic := ⟨_, Examples.globalsOK_S, Examples.e3_frag⟩
+example : Typed3 Examples.envS Examples.e4 (.ty (.coll Examples.X)) := ⟨_, Examples.globalsOK_S, Examples.e4_frag⟩
+example : (evaluate 20 Examples.envS Examples.e4).1 = .ok (.s [.e 1, .e 2]) := by decide
 
 /-! ## former counterexamples, after the `fix:` commits -/
 
